@@ -21,6 +21,27 @@ NA = {
 }
 
 CHECKS = {
+ 'C02': dict(
+   engine='genc-doc',
+   category='translation_validation',
+   text='Generated-C machine only (the two interpreter engines are C++/DOM and not applicable): for each corpus document the C emitted by uscxml-transform built from /repo is validated - the invariant "legal configuration (Recommendation 3.11, phrased over an independent XML reading of the document) + consistent remembered history" is proved inductive for the emitted uscxml_step() from the pristine context and from every context satisfying it, for every pending event and every answer of the callbacks. Histories and configurations are closed by induction; programs are a corpus (hand-written charts aimed at history/parallel/internal/initial mechanisms + W3C IRP documents), not all documents. Counterexamples are replayed natively on the emitted file under ASan and searched for reachability from initialisation.',
+   note='Trusted: CBMC 6.11, the build of uscxml-transform from /repo, python xml.etree reading of the document, wf.h/spec_rec.h transcription of 3.11. Assumed: callbacks honour const ctx; derived preconditions (is_matched, raise_done_event, invoke non-NULL). Nested-history documents: history clause not decided. Where the loop contract of the DEQUEUE_EVENT loop exceeds the tool budget the document counts as bounded.',
+   technique='CBMC contract instrumentation (goto-instrument --dfcc) on the emitted uscxml_step() per document: inductive invariant as pre/postcondition, loop contract + glue lemma for the one unbounded loop',
+   design='3/C02'),
+ 'C04': dict(
+   engine='genc-doc',
+   category='translation_validation',
+   text='Second sentence of C04 (the emitted step function never reads or writes outside the arrays it declares), decided per emitted document for ALL contexts and ALL callback behaviours: every pointer/bounds/overflow/conversion check CBMC generates in the emitted uscxml_step(), executable-content functions and bit_* helpers with the concrete emitted tables; the dfcc frame of a contract on uscxml_step; life-cycle and dequeue-order postconditions; sizing facts of the generator. The unbounded DEQUEUE_EVENT loop is closed by a loop contract and a glue lemma. The first sentence (same trace as the interpreter) is NOT decided: the interpreter is C++ and out of reach of this technique.',
+   note='Trusted: CBMC 6.11, build of uscxml-transform from /repo. Assumed: callbacks honour const ctx and return OK or an error code; derived preconditions listed in the evidence; only the top machine of a file with nested invoked machines is validated; <foreach> bounded to 2 items in the harness.',
+   technique='CBMC code contracts (goto-instrument --dfcc --enforce-contract uscxml_step, loop contract via --loop-contracts-file) on the emitted C per document',
+   design='3/C04'),
+ 'C05': dict(
+   engine='genc-doc',
+   category='translation_validation',
+   text='For each corpus document the tables embedded in the emitted C (order, parent, children, ancestors, type, completion, history completion, targets, transition type, exit sets, conflicts) are compared by CBMC with spec functions written from the Recommendation over an independent XML reading of that document; all inputs are constants, so each obligation is closed and CBMC acts as an evaluator with bounds checking. Validation of each emitted program against a spec - not a proof about Predicates.cpp for all documents (C++/DOM, out of reach). The Promela and VHDL copies of the tables are not covered.',
+   note='Trusted: CBMC 6.11, python xml.etree reading + id-based matching of emitted states to document elements, spec_rec.h transcription. Conflict relation stated two-sided (ancestrally related sources with a parallel state between are left open); exit set/conflicts not demanded for the never-selected default transitions of history/initial.',
+   technique='CBMC as bounds-checked evaluator of closed obligations: emitted C tables vs Recommendation-derived spec functions per document',
+   design='3/C05'),
  'C12': dict(
    engine='namematch',
    category='other',
@@ -77,6 +98,7 @@ def main():
         },
         'engines': [
             {'name': 'jsmn', 'path': 'engines/jsmn', 'serves_properties': ['C15'], 'kind_free_text': 'CBMC contracts on the unmodified C file (route R1)'},
+            {'name': 'genc-doc', 'path': 'engines/genc', 'serves_properties': ['C02', 'C04', 'C05'], 'kind_free_text': 'contracts on the emitted C of each corpus document (route R2): dfcc on uscxml_step + closed table obligations'},
             {'name': 'namematch', 'path': 'engines/extract', 'serves_properties': ['C12'], 'kind_free_text': 'rule-based extraction of C++ leaf functions to C (route R3) + bounded CBMC'},
             {'name': 'pmlarms', 'path': 'engines/extract', 'serves_properties': ['C17'], 'kind_free_text': 'rule-based extraction of switch arms to C (route R3) + CBMC over the full operand domain'},
         ],
